@@ -2187,6 +2187,9 @@ class Engine:
                 return as_S(a) + as_S(b)
             if isinstance(a, tuple) and a and a[0] == "tuple" and isinstance(b, tuple) and b and b[0] == "tuple":
                 return ("tuple", a[1] + b[1])
+            if isinstance(a, tuple) and a[:1] in (("tuple",), ("comp",)) and isinstance(b, tuple) and b[:1] in (("tuple",), ("comp",)):
+                # [known] + [generated]: a list of known items and generated ones
+                return ("tuple", (a[1] if a[0] == "tuple" else (("star", a),)) + (b[1] if b[0] == "tuple" else (("star", b),)))
             return lin(a) + lin(b)
         if isinstance(op, ast.Sub):
             return lin(a) - lin(b)
@@ -2569,13 +2572,16 @@ class Engine:
         # a list held by a local: append / extend / insert are followed (inside a loop that is not unrolled the name is a loop symbol, not a list)
         if attr in ("append", "extend", "insert") and isinstance(node.func.value, ast.Name) and not kws:
             cur = st.env.get(node.func.value.id)
-            if isinstance(cur, tuple) and cur[:1] == ("tuple",) and not any(isinstance(x, tuple) and x[:1] == ("star",) for x in cur[1]):
+            gen = lambda x: isinstance(x, tuple) and x[:1] == ("star",) and isinstance(x[1], tuple) and x[1][:1] == ("comp",)
+            if isinstance(cur, tuple) and cur[:1] == ("tuple",) and not any(isinstance(x, tuple) and x[:1] == ("star",) and not gen(x) for x in cur[1]):
                 new = None
                 if attr == "append" and len(args) == 1:
                     new = ("tuple", cur[1] + (args[0],))
                 elif attr == "extend" and len(args) == 1 and isinstance(args[0], tuple) and args[0][:1] == ("tuple",):
                     new = ("tuple", cur[1] + args[0][1])
-                elif attr == "insert" and len(args) == 2 and is_int_const(args[0]) and 0 <= ival(args[0]) <= len(cur[1]):
+                elif attr == "extend" and len(args) == 1 and isinstance(args[0], tuple) and args[0][:1] == ("comp",):
+                    new = ("tuple", cur[1] + (("star", args[0]),))          # known items followed by generated ones
+                elif attr == "insert" and len(args) == 2 and is_int_const(args[0]) and 0 <= ival(args[0]) <= len(cur[1]) and not any(gen(x) for x in cur[1]):
                     new = ("tuple", cur[1][:ival(args[0])] + (args[1],) + cur[1][ival(args[0]):])
                 st.env[node.func.value.id] = new if new is not None else ("op", "list-after-" + attr, (cur,) + tuple(args))
         return res
@@ -2637,6 +2643,15 @@ class Engine:
                             parts.append(("lit", recv.text()))
                         parts.extend(as_S(e).p)
                     return S(parts)
+                if isinstance(x, tuple) and x and x[0] == "tuple" and recv.text() == "" and all(
+                        self.is_str(e) or (isinstance(e, tuple) and e[:1] == ("star",) and isinstance(e[1], tuple) and e[1][:1] == ("comp",)) for e in x[1]):
+                    parts = []                     # "".join(known strings and generated strings)
+                    for e in x[1]:
+                        if self.is_str(e):
+                            parts.extend(as_S(e).p)
+                        else:
+                            parts.append(("join", "", e[1]))
+                    return S(parts)
                 if isinstance(x, tuple) and x and x[0] == "comp":
                     return S((("join", recv.text(), x),))
         if attr == "transpose" and recv is not None and not args:
@@ -2672,8 +2687,16 @@ class Engine:
             n = self.slice_len(v, st.facts)
             if n is not None:
                 return n
+            return lin(("len", v))
         if isinstance(v, tuple) and v and v[0] == "elem" and isinstance(v[2], Lin):
             return lin(("dim", origin(v[1]), 1))          # the length of a row of a 2-D array
+        if isinstance(v, tuple) and v and v[0] == "elem" and isinstance(v[2], tuple) and v[2][:1] == ("tuple",) and len(v[2][1]) == 2:
+            full = ("sl", Lin(), ("k", None), Lin(c=1))
+            i0, i1 = v[2][1]
+            if i0 == full and not (isinstance(i1, tuple) and i1[:1] == ("sl",)):
+                return lin(("len", origin(v[1])))           # a column m[:, j]
+            if i1 == full and not (isinstance(i0, tuple) and i0[:1] == ("sl",)):
+                return lin(("dim", origin(v[1]), 1))         # a row m[i, :]
         return lin(("len", origin(v)))
 
     def slice_len(self, v, facts):
@@ -2681,7 +2704,7 @@ class Engine:
         base, lo, hi, step = v[1], v[2], v[3], v[4]
         if not is_int_const(step) or ival(step) < 1:
             return None
-        n = lin(("len", origin(base))) if not (isinstance(base, tuple) and base and base[0] == "slice") else self.slice_len(base, facts)
+        n = self._length(base, State(facts=facts))        # the sliced object: a sequence, a slice, a column of a matrix, ...
         if n is None:
             return None
         lo = lin(lo)
